@@ -32,8 +32,19 @@ enum HExpr {
     Union(Box<HExpr>, Box<HExpr>),
 }
 
+/// --insert-after / --insert-before location.
+#[derive(Clone, Debug)]
+enum Loc {
+    After(usize),
+    Before(usize),
+    Both(usize, usize),
+}
+
 #[derive(Clone, Debug)]
 enum Cmd {
+    NewLoc(Loc),
+    RebaseLoc(usize, Loc),
+    DupLoc(usize, Loc),
     Describe(Vec<usize>),
     Abandon(Vec<usize>),
     RebaseS(Vec<usize>, usize),
@@ -108,8 +119,18 @@ fn hexpr_term(e: &HExpr) -> String {
         HExpr::Union(a, b) => format!("(HUnion {} {})", hexpr_term(a), hexpr_term(b)),
     }
 }
+fn loc_term(l: &Loc) -> String {
+    match l {
+        Loc::After(x) => format!("(LAfter {x})"),
+        Loc::Before(y) => format!("(LBefore {y})"),
+        Loc::Both(x, y) => format!("(LBoth {x} {y})"),
+    }
+}
 fn cmd_term(c: &Cmd) -> String {
     match c {
+        Cmd::NewLoc(l) => format!("(CNewLoc {})", loc_term(l)),
+        Cmd::RebaseLoc(z, l) => format!("(CRebaseLoc {z} {})", loc_term(l)),
+        Cmd::DupLoc(z, l) => format!("(CDupLoc {z} {})", loc_term(l)),
         Cmd::Describe(ts) => format!("(CDescribe {})", nat_list(ts)),
         Cmd::Abandon(ts) => format!("(CAbandon {})", nat_list(ts)),
         Cmd::RebaseS(ss, d) => format!("(CRebaseS {} {d})", nat_list(ss)),
@@ -131,6 +152,10 @@ fn cmd_term(c: &Cmd) -> String {
 }
 fn cmd_kind(c: &Cmd) -> &'static str {
     match c {
+        Cmd::NewLoc(Loc::Both(..)) => "new-A-B",
+        Cmd::NewLoc(_) => "new-A",
+        Cmd::RebaseLoc(..) => "rebase-r-A/B",
+        Cmd::DupLoc(..) => "duplicate-A/B",
         Cmd::Describe(_) => "describe",
         Cmd::Abandon(_) => "abandon",
         Cmd::RebaseS(..) => "rebase-s",
@@ -329,7 +354,7 @@ fn random_cmd(rng: &mut Rng, w: &World, ws: u64, have_ws2: bool, step: usize) ->
             _ => Cmd::Commit,
         };
     }
-    match rng.below(26) {
+    match rng.below(31) {
         0 | 1 | 2 => {
             let mut ts = vec![t];
             if rng.chance(1, 4) {
@@ -372,6 +397,30 @@ fn random_cmd(rng: &mut Rng, w: &World, ws: u64, have_ws2: bool, step: usize) ->
             Cmd::New(ps, rng.chance(1, 2))
         }
         14 => Cmd::NewBefore(t, rng.chance(1, 2)),
+        26 | 27 | 28 | 29 | 30 => {
+            // insertion with -A / -B / both: y is the (often immutable) commit that gets a new
+            // parent; x is arbitrary (its child, unrelated, or anything)
+            let imms: Vec<usize> = w.vis.iter().copied().filter(|c| *c != 0 && w.imm.contains(c)).collect();
+            let y = if !imms.is_empty() && rng.chance(3, 5) { *rng.pick(&imms) } else { t };
+            let x = {
+                let ps: Vec<usize> = w.graph[y].clone();
+                if !ps.is_empty() && rng.chance(1, 2) { *rng.pick(&ps) } else { *rng.pick(&w.vis) }
+            };
+            let l = match rng.below(5) {
+                0 => Loc::After(x),
+                1 => Loc::Before(y),
+                _ => Loc::Both(x, y),
+            };
+            let z = pick_target(rng, w, true);
+            match rng.below(4) {
+                0 | 1 => match l {
+                    Loc::Before(y) => Cmd::NewBefore(y, true),
+                    l => Cmd::NewLoc(l),
+                },
+                2 => Cmd::RebaseLoc(z, l),
+                _ => Cmd::DupLoc(z, l),
+            }
+        }
         15 => Cmd::Commit,
         16 | 17 => Cmd::BookmarkSet(rng.range(1, 3), *rng.pick(&w.vis)),
         18 => Cmd::TagSet(1, *rng.pick(&w.vis)),
@@ -455,6 +504,42 @@ fn cmd_args(c: &Cmd, w: &World, msg: &str) -> Vec<String> {
             if *described {
                 push(&mut a, "-m");
                 push(&mut a, msg);
+            }
+        }
+        Cmd::NewLoc(l) | Cmd::RebaseLoc(_, l) | Cmd::DupLoc(_, l) => {
+            match c {
+                Cmd::NewLoc(_) => {
+                    for s in ["new", "-m", msg] {
+                        push(&mut a, s);
+                    }
+                }
+                Cmd::RebaseLoc(z, _) => {
+                    for s in ["rebase", "-r"] {
+                        push(&mut a, s);
+                    }
+                    a.push(h(z));
+                }
+                Cmd::DupLoc(z, _) => {
+                    push(&mut a, "duplicate");
+                    a.push(h(z));
+                }
+                _ => {}
+            }
+            match l {
+                Loc::After(x) => {
+                    push(&mut a, "-A");
+                    a.push(h(x));
+                }
+                Loc::Before(y) => {
+                    push(&mut a, "-B");
+                    a.push(h(y));
+                }
+                Loc::Both(x, y) => {
+                    push(&mut a, "-A");
+                    a.push(h(x));
+                    push(&mut a, "-B");
+                    a.push(h(y));
+                }
             }
         }
         Cmd::NewBefore(x, described) => {
@@ -658,6 +743,14 @@ fn session(index: usize, mut rng: Rng, scratch: &Path, tier: &str) -> SessionRes
         let cmd = if let Some(c) = queue.pop() {
             ws = 0;
             c
+        } else if index == 0 && step == 0 && events.is_empty() && w.vis.len() >= 3 {
+            // fixed corpus session: commit 1 (and the root) immutable by configuration, then
+            // `jj new -A <mutable> -B <immutable>`
+            cfg = HExpr::Commit(1);
+            let m = *w.vis.iter().rev().find(|&&c| c != 0 && c != 1).unwrap_or(&0);
+            queue = vec![Cmd::NewLoc(Loc::Both(m, 1))];
+            ws = 0;
+            Cmd::Observe
         } else if force_wc_cfg_at == Some(step) {
             force_wc_cfg_at = None;
             queue = pending.clone();
@@ -699,6 +792,7 @@ fn session(index: usize, mut rng: Rng, scratch: &Path, tier: &str) -> SessionRes
                 cmd,
                 Cmd::Describe(_) | Cmd::Abandon(_) | Cmd::RebaseS(..) | Cmd::RebaseR(..) | Cmd::Squash(..)
                     | Cmd::Edit(_) | Cmd::NewBefore(..) | Cmd::Metaedit(_) | Cmd::Restore(..) | Cmd::Snapshot
+                    | Cmd::NewLoc(_) | Cmd::RebaseLoc(..) | Cmd::DupLoc(..)
             );
         let mut imm_pre: Vec<usize> = w.imm.iter().copied().collect();
         let wc_pre = w.wc(ws);
